@@ -232,6 +232,9 @@ fn main() {
     cov.insert("rule".into(), json!(format!(
         "struct: {} catalogue records (every content type, message lists of 1..{} messages incl. multi-message handshake records, trailing garbage, malformed later messages) x every combination of <= {} deviations (each length field in {{0,1,true-1,true+1,max}}, every cut, 4 suffixes); all 256 content types x 5 payloads; all 65536 alerts; all 256 heartbeat types; 7 record versions on single messages and all 65536 record versions on multi-message records of each content type; bytes: every payload string of length <= {} over a per-content-type positional alphabet as a complete record. Each case through one-step and two-step parsing, compared with the strict record walker (value incl. slice positions, consumption = undecoded tail) and with each other. Non-trivial: not cut inside the 5-byte header",
         nrec, run.tier.pick(2, 4), run.tier.pick(1, 2), n)));
+    // the same check against the crate built with all cargo features (std, serialize, unstable)
+    let mut sink = sink;
+    run.all_features_variant(&mut sink);
     let code = run.finish(
         &sink,
         cov,
